@@ -1,9 +1,247 @@
-"""library models: core::fmt (segment writer) -- filled in by the text tier"""
+"""library models: core::fmt.
+
+`Arguments` values are built structurally; `fmt::format` / `write_fmt` render them through the interpreted
+`Display` / `Debug` / `Quil` impls of crate types into a `Str` (concrete text; symbolic names are forked over their
+alphabet when their characters are needed)."""
 from values import *
+from mirparse import base_name
+
 M = {}
 G = {}
+
+
+def model(*names):
+    def deco(f):
+        for n in names: M[n] = f
+        return f
+    return deco
 
 
 def install(world):
     world.models.update(M)
     world.generic_models.update(G)
+
+
+class Formatter:
+    """core::fmt::Formatter: accumulates text"""
+    __slots__ = ("buf", "alternate")
+
+    def __init__(self):
+        self.buf, self.alternate = [], False
+
+    def text(self):
+        return "".join(self.buf)
+
+
+@model("Arguments::from_str", "core::fmt::Arguments::from_str", "std::fmt::Arguments::from_str")
+def args_from_str(m, s): return Agg("Arguments", None, [VecObj([deref(s)]), VecObj([])])
+
+
+def decode_template(bs):
+    """core::fmt::Arguments template bytes (rustc >= 1.9x) -> [("lit", str) | ("arg", index|None, flags, width, precision)]"""
+    parts, i = [], 0
+    while True:
+        n = bs[i]; i += 1
+        if n == 0: return parts
+        if n < 0x80:
+            parts.append(("lit", bytes(bs[i:i + n]).decode("utf8"))); i += n
+        elif n == 0x80:
+            ln = bs[i] | (bs[i + 1] << 8); i += 2
+            parts.append(("lit", bytes(bs[i:i + ln]).decode("utf8"))); i += ln
+        elif n == 0xC0:
+            parts.append(("arg", None, 0, None, None))
+        else:
+            flags = width = prec = idx = None
+            if n & 1: flags = int.from_bytes(bytes(bs[i:i + 4]), "little"); i += 4
+            if n & 2: width = bs[i] | (bs[i + 1] << 8); i += 2
+            if n & 4: prec = bs[i] | (bs[i + 1] << 8); i += 2
+            if n & 8: idx = bs[i] | (bs[i + 1] << 8); i += 2
+            if n & 48: raise Unsupported("format placeholder with indirect width/precision")
+            parts.append(("arg", idx, flags or 0, width, prec))
+
+
+@model("Arguments::new", "core::fmt::Arguments::new", "Arguments::new_const", "Arguments::new_v1", "core::fmt::Arguments::new_v1", "core::fmt::Arguments::new_const")
+def args_new(m, pieces, args=None, *rest):
+    ps = deref(pieces)
+    ar = deref(args) if args is not None else VecObj([])
+    if isinstance(ps, VecObj) and ps.items and isinstance(ps.items[0], int):
+        return Agg("Arguments", None, [decode_template(ps.items), ar])
+    return Agg("Arguments", None, [ps if isinstance(ps, (VecObj, Slice)) else VecObj([ps]), ar])
+
+
+for _k in ("display", "debug", "lower_hex", "upper_hex", "lower_exp", "upper_exp", "binary", "octal", "pointer"):
+    def _mk(kind):
+        return lambda m, r: Agg("Argument", None, [r, kind])
+    M[f"core::fmt::rt::Argument::new_{_k}"] = _mk(_k)
+    M[f"Argument::new_{_k}"] = _mk(_k)
+
+
+def display_value(m, v, kind, fmt):
+    """write the Display/Debug rendering of value v into fmt"""
+    import struct
+    dv = deref(v)
+    if isinstance(dv, Str):
+        s = m.str_concrete(dv)
+        fmt.buf.append(repr_rust_str(s) if kind == "debug" else s); return
+    if isinstance(dv, bool):
+        fmt.buf.append("true" if dv else "false"); return
+    if isinstance(dv, int):
+        fmt.buf.append(("%x" % dv) if kind == "lower_hex" else ("%X" % dv) if kind == "upper_hex" else str(dv)); return
+    if isinstance(dv, float):
+        fmt.buf.append(rust_f64_display(dv, kind == "debug")); return
+    if is_sym(dv):
+        raise Unsupported("formatting a symbolic scalar")
+    if isinstance(dv, Agg):
+        trait = "Debug" if kind == "debug" else "Display"
+        cell = [fmt]
+        r = m.call_path(f"<{dv.ty} as {trait}>::fmt", [v if isinstance(v, Ref) else Ref([dv], 0), Ref(cell, 0)])
+        return
+    raise Unsupported(f"display of {dv!r}")
+
+
+def repr_rust_str(s):
+    out = '"'
+    for c in s:
+        out += {'"': '\\"', "\\": "\\\\", "\n": "\\n", "\t": "\\t", "\r": "\\r"}.get(c, c)
+    return out + '"'
+
+
+def rust_f64_display(x, debug=False):
+    if x != x: return "NaN"
+    if x == float("inf"): return "inf"
+    if x == float("-inf"): return "-inf"
+    if x == int(x) and abs(x) < 1e16:
+        s = str(int(x))
+        if x == 0 and str(x).startswith("-"): s = "-0"
+        return s + (".0" if debug else "")
+    r = repr(x)
+    if "e" in r or "E" in r:
+        from decimal import Decimal
+        r = format(Decimal(r), "f")
+    return r
+
+
+def render_arguments(m, a, fmt):
+    a = deref(a)
+    if isinstance(a.fields[0], list):          # decoded template
+        args = a.fields[1].items if isinstance(a.fields[1], VecObj) else a.fields[1].vec.items[a.fields[1].lo:a.fields[1].hi]
+        nxt = 0
+        for p in a.fields[0]:
+            if p[0] == "lit":
+                fmt.buf.append(p[1]); continue
+            _, idx, flags, width, prec = p
+            if idx is not None: nxt = idx
+            arg = deref(args[nxt]); nxt += 1
+            if width is not None or prec is not None or (flags & ~(1 << 23)) not in (0, 0x20, 0x60000020):
+                m.world.count("fmt_options_ignored")
+            old = fmt.alternate
+            fmt.alternate = bool(flags & (1 << 23))
+            display_value(m, arg.fields[0], arg.fields[1], fmt)
+            fmt.alternate = old
+        return
+    pieces = a.fields[0].items if isinstance(a.fields[0], VecObj) else a.fields[0].vec.items[a.fields[0].lo:a.fields[0].hi]
+    args = a.fields[1].items if isinstance(a.fields[1], VecObj) else a.fields[1].vec.items[a.fields[1].lo:a.fields[1].hi]
+    for i, p in enumerate(pieces):
+        fmt.buf.append(m.str_concrete(p))
+        if i < len(args):
+            arg = deref(args[i])
+            display_value(m, arg.fields[0], arg.fields[1], fmt)
+    for j in range(len(pieces), len(args)):
+        arg = deref(args[j])
+        display_value(m, arg.fields[0], arg.fields[1], fmt)
+
+
+@model("std::fmt::format", "alloc::fmt::format", "format", "std::fmt::format::format_inner", "alloc::fmt::format::format_inner")
+def fmt_format(m, a):
+    f = Formatter()
+    render_arguments(m, a, f)
+    return Str(f.text())
+
+
+@model("Formatter::write_str", "core::fmt::Formatter::write_str", "std::fmt::Formatter::write_str")
+def formatter_write_str(m, f, s):
+    deref(f).buf.append(m.str_concrete(s))
+    return OK(UNIT)
+
+
+@model("Formatter::write_fmt", "core::fmt::Formatter::write_fmt", "std::fmt::Formatter::write_fmt")
+def formatter_write_fmt(m, f, a):
+    render_arguments(m, a, deref(f))
+    return OK(UNIT)
+
+
+@model("Formatter::write_char", "core::fmt::Formatter::write_char")
+def formatter_write_char(m, f, c):
+    deref(f).buf.append(chr(c))
+    return OK(UNIT)
+
+
+M["Formatter::alternate"] = M["core::fmt::Formatter::alternate"] = lambda m, f: deref(f).alternate
+
+
+def write_target(m, w):
+    """text sink behind a `&mut impl fmt::Write`: a Formatter, or a String slot"""
+    t = deref(w)
+    return t
+
+
+def g_write_str(m, path, w, s):
+    t = deref(w)
+    if isinstance(t, Formatter):
+        t.buf.append(m.str_concrete(s)); return OK(UNIT)
+    if isinstance(t, Str):
+        r = w
+        while isinstance(r.get(), Ref): r = r.get()
+        r.set(Str(m.str_concrete(t) + m.str_concrete(s))); return OK(UNIT)
+    return NotImplemented
+
+
+def g_write_fmt(m, path, w, a):
+    t = deref(w)
+    f = Formatter()
+    render_arguments(m, a, f)
+    if isinstance(t, Formatter):
+        t.buf.append(f.text()); return OK(UNIT)
+    if isinstance(t, Str):
+        r = w
+        while isinstance(r.get(), Ref): r = r.get()
+        r.set(Str(m.str_concrete(t) + f.text())); return OK(UNIT)
+    return NotImplemented
+
+
+def g_write_char(m, path, w, c):
+    return g_write_str(m, path, w, Str(chr(c)))
+
+
+G["<_ as Write>::write_str"] = g_write_str
+G["<_ as Write>::write_fmt"] = g_write_fmt
+G["<_ as Write>::write_char"] = g_write_char
+
+
+def g_display_fmt(m, path, v, f):
+    dv = deref(v)
+    if isinstance(dv, (Str, int, float, bool)) and not isinstance(dv, Agg):
+        display_value(m, v, "display", deref(f)); return OK(UNIT)
+    return NotImplemented
+
+
+def g_debug_fmt(m, path, v, f):
+    dv = deref(v)
+    if isinstance(dv, (Str, int, float, bool)) and not isinstance(dv, Agg):
+        display_value(m, v, "debug", deref(f)); return OK(UNIT)
+    return NotImplemented
+
+
+G["<_ as Display>::fmt"] = g_display_fmt
+G["<_ as Debug>::fmt"] = g_debug_fmt
+
+
+def g_to_string(m, path, r):
+    v = deref(r)
+    if isinstance(v, Str): return v
+    f = Formatter()
+    display_value(m, r, "display", f)
+    return Str(f.text())
+
+
+G["<_ as ToString>::to_string"] = g_to_string
